@@ -31,7 +31,10 @@ def oracles(ctx, o3):
     try:
         # Linear: exact second moment from the Jacobian (output is linear in x and in w): E[y_k²] = Σ_{u,i} (∂²y_k/∂w∂x)² for unit variances
         for (ii, io, kw) in [("2x0e+3x1o", "4x0e+1x1o+2x1o", {}), ("2x1o+2x1o+1x0e", "3x1o+2x0e", {"path_normalization": "path"}),
-                             ("3x0e+2x1e", "2x0e+3x1e", {"f_in": 2, "f_out": 3}), ("1x0e", "5x0e", {})]:
+                             ("3x0e+2x1e", "2x0e+3x1e", {"f_in": 2, "f_out": 3}), ("1x0e", "5x0e", {}),
+                             ("2x0e+3x0e+1x1o", "2x0e+2x1o", {"f_in": 3, "f_out": 2, "path_normalization": "path"}),
+                             ("2x1o+4x1o", "3x1o", {"f_in": 5, "f_out": 1, "path_normalization": "path"}),
+                             ("2x0e+6x0e", "3x0e", {"path_normalization": "path"})]:
             lin = o3.Linear(ii, io, **kw)
             d_in = lin.irreps_in.dim
             fin = kw.get("f_in")
@@ -81,7 +84,10 @@ def oracles(ctx, o3):
             if dev > 1e-9:
                 ctx.violation("TensorSquare/second-moment", {"irreps": irr, "second_moments": tot.tolist()}, True)
         # activations wrapped by the library: second moment under N(0,1) is 1 (to the accuracy of the library's own constant)
-        for name, act in [("tanh", torch.tanh), ("relu", torch.relu), ("silu", torch.nn.functional.silu), ("sigmoid", torch.sigmoid), ("abs", torch.abs)]:
+        for name, act in [("tanh", torch.tanh), ("relu", torch.relu), ("silu", torch.nn.functional.silu), ("sigmoid", torch.sigmoid), ("abs", torch.abs),
+                          # raw second moment > 1 as well as < 1
+                          ("x**2", lambda t: t ** 2), ("cosh", torch.cosh), ("2*tanh", lambda t: 2 * torch.tanh(t)), ("1.5*x", lambda t: 1.5 * t),
+                          ("relu+1", lambda t: torch.relu(t) + 1), ("0.1*x", lambda t: 0.1 * t)]:
             f = normalize2mom(act)
             m2 = gauss_hermite_second_moment(f)
             ctx.case(f"normalize2mom {name} second moment {m2:.5f}")
